@@ -194,10 +194,11 @@ def sniffers(ctx, encutils, count):
         fp = io.StringIO(doc)
         fp.seek(pos)
         ctx.count('evaluations')
-        case = {'kind': 'sniff', 'doc': doc, 'pos': pos}
+        uselog = NULLLOG if rng.random() < 0.5 else None
+        case = {'kind': 'sniff', 'doc': doc, 'pos': pos, 'log': uselog is not None}
         try:
-            got = encutils.detectXMLEncoding(fp, log=NULLLOG)
-            got2 = encutils.detectXMLEncoding(doc, log=NULLLOG, includeDefault=False)
+            got = encutils.detectXMLEncoding(fp, log=uselog)
+            got2 = encutils.detectXMLEncoding(doc, log=uselog, includeDefault=False)
         except Exception as e:
             feats = ['doc.shorter-than-4'] if len(doc) < 4 else []
             ctx.violation('sniff.exception', case, {'tb': core.short_tb(e)}, features=feats, site=core.raise_site(e))
@@ -255,7 +256,7 @@ def replay(ctx, case):
         fp = io.StringIO(case['doc'])
         fp.seek(case['pos'])
         try:
-            got = encutils.detectXMLEncoding(fp, log=NULLLOG)
+            got = encutils.detectXMLEncoding(fp, log=NULLLOG if case.get('log', True) else None)
         except Exception as e:
             ctx.violation('sniff.exception', case, {'tb': core.short_tb(e)}, features=['doc.shorter-than-4'] if len(case['doc']) < 4 else [], site=core.raise_site(e))
             return
